@@ -351,6 +351,12 @@ func GenWildModel(rng *rand.Rand) *Model {
 func GenCycleWeb(rng *rand.Rand) *Model {
 	n := 3 + rng.Intn(4)
 	names := []string{"a", "b", "m", "n", "x", "y"}[:n]
+	if rng.Intn(3) == 0 {
+		// names that are prefixes of one another (placeholders and node ids are compared as strings)
+		pool := []string{"viewer", "viewer_all", "view", "member", "members", "v"}
+		rng.Shuffle(len(pool), func(a, b int) { pool[a], pool[b] = pool[b], pool[a] })
+		names = pool[:n]
+	}
 	terms := []string{"user", "employee"}
 	m := &Model{Schema: "1.1"}
 	for _, t := range terms {
@@ -476,6 +482,23 @@ func GenSharedTarget(rng *rand.Rand) *Model {
 		rng.Shuffle(len(restr), func(a, b int) { restr[a], restr[b] = restr[b], restr[a] })
 		second := []string{"member", "member", "other"}[rng.Intn(3)]
 		g.Rels = append(g.Rels, Rel{Name: "x" + string(rune('0'+i)), Rewrite: op(rng.Intn(4), This(), CU(second)), Restr: restr})
+	}
+	// an intersection whose only common type reaches one operand through a LATER entry of the base list of an exclusion
+	if nu >= 2 {
+		perm := rng.Perm(nu)
+		a, b := users[perm[0]], users[perm[1]]
+		g.Rels = append(g.Rels, Rel{Name: "blocked", Rewrite: This(), Restr: []Ref{{Type: a}}})
+		base := []Ref{{Type: a}, {Type: b}}
+		if rng.Intn(2) == 0 {
+			base = []Ref{{Type: a}, {Type: "group", Rel: "other"}, {Type: b}}
+		}
+		g.Rels = append(g.Rels, Rel{Name: "allowed", Rewrite: Diff(This(), CU("blocked")), Restr: base})
+		g.Rels = append(g.Rels, Rel{Name: "staff", Rewrite: This(), Restr: []Ref{{Type: b}}})
+		if rng.Intn(2) == 0 {
+			g.Rels = append(g.Rels, Rel{Name: "both", Rewrite: Inter(CU("allowed"), CU("staff"))})
+		} else {
+			g.Rels = append(g.Rels, Rel{Name: "both", Rewrite: Inter(CU("staff"), Union(CU("allowed"), CU("allowed")))})
+		}
 	}
 	m.Types = append(m.Types, g)
 	// TTUs over several parent types against a TTU over one of them
